@@ -138,3 +138,103 @@ def unitRow (i : Nat) (a : Int) : List Int := List.replicate i 0 ++ [a]
 def relax (cs : List Con) : List Con := cs.map fun c => { c with strict := false }
 
 end PPLV.Lin
+
+namespace PPLV.Lin
+
+/-! ### existential projection onto the first `n` coordinates -/
+
+def Con.truncate (n : Nat) (c : Con) : Con := { c with coeffs := c.coeffs.take n }
+def Con.shift (k : Nat) (c : Con) : Con := { c with coeffs := List.replicate k 0 ++ c.coeffs }
+
+/-- `{w | ∃ w', w' agrees with w below n ∧ Sat cs w'}` for rows over `total` variables -/
+def projectTo (n total : Nat) (cs : List Con) : List Con :=
+  (elimVars (List.range' n (total - n)) (tidy cs)).map (Con.truncate n)
+
+/-! ### generator systems -/
+
+inductive GKind | line | ray | point | cpoint
+deriving Repr, DecidableEq, Hashable, Inhabited
+
+/-- a generator with integer coordinates and (for points and closure points) a positive divisor -/
+structure Gen where
+  kind : GKind
+  coords : List Int
+  div : Int
+deriving Repr, DecidableEq, Hashable, Inhabited
+
+def Gen.isLine (g : Gen) : Bool := g.kind == .line
+def Gen.isPt (g : Gen) : Bool := g.kind == .point
+def Gen.isPtOrCp (g : Gen) : Bool := g.kind == .point || g.kind == .cpoint
+/-- weight of the multiplier in the convexity constraint (after the change of variable μ = λ/div) -/
+def Gen.wt (g : Gen) : Int := if g.isPtOrCp then g.div else 0
+def Gen.pwt (g : Gen) : Int := if g.isPt then g.div else 0
+/-- the divisor that matters: 1 for lines and rays -/
+def Gen.d (g : Gen) : Int := if g.isPtOrCp then g.div else 1
+
+def gensWF (n : Nat) (gs : List Gen) : Bool :=
+  gs.all fun g => decide (g.coords.length ≤ n) && decide (0 < g.d)
+
+/-- rows over `(x_0..x_{n-1}, μ_0..μ_{m-1})`: `x_i = Σ μ_j g_j[i]`, `μ_j ≥ 0` (non-lines),
+    `Σ_{points, closure points} d_j μ_j = 1`, `Σ_{points} d_j μ_j > 0` -/
+def liftedGens (n : Nat) (gs : List Gen) : List Con :=
+  let m := gs.length
+  let coordRows := (List.range n).flatMap fun i =>
+    eqRows (unitRow i 1 ++ List.replicate (n - 1 - i) 0 ++ gs.map (fun g => - g.coords.getD i 0)) 0
+  let signRows := (List.range m).filterMap fun j =>
+    if (gs.getD j default).isLine then none else some (geRow (List.replicate (n + j) 0 ++ [1]) 0)
+  let convex := eqRows (List.replicate n 0 ++ gs.map Gen.wt) (-1)
+  let somePt := [gtRow (List.replicate n 0 ++ gs.map Gen.pwt) 0]
+  coordRows ++ signRows ++ convex ++ somePt
+
+/-- constraint description of the set generated by `gs` (empty list of generators: the empty set) -/
+def gensToCons (n : Nat) (gs : List Gen) : List Con :=
+  projectTo n (n + gs.length) (liftedGens n gs)
+
+/-- do the two descriptions denote the same set? -/
+def checkDD (n : Nat) (cs : List Con) (gs : List Gen) : Bool :=
+  equivB n cs (gensToCons n gs)
+
+/-! ### supremum of a linear expression -/
+
+inductive Sup
+  | empty                                   -- the set is empty
+  | unbounded                               -- no upper bound
+  | val (num : Int) (den : Int) (attained : Bool)   -- sup = num/den, den > 0
+deriving Repr, DecidableEq, Inhabited
+
+/-- rows over `(t, x_0..x_{n-1})`: `den*t = e·x + k` together with the shifted system -/
+def supSystem (e : List Int) (k : Int) (cs : List Con) : List Con :=
+  eqRows (1 :: e.map (- ·)) (-k) ++ cs.map (Con.shift 1)
+
+/-- upper bounds `a t + k ≥ 0`, `a < 0` on a single variable: the least one as `(num, den, strict)` -/
+def minUpper : List Con → Option (Int × Int × Bool)
+  | [] => none
+  | c :: cs =>
+    let a := c.at 0
+    let rest := minUpper cs
+    if a < 0 then
+      -- t ≤ k / (-a)
+      let cand : Int × Int × Bool := (c.k, -a, c.strict)
+      match rest with
+      | none => some cand
+      | some (p, q, s) =>
+        -- compare c.k/(-a) with p/q
+        if cand.1 * q < p * cand.2.1 then some cand
+        else if cand.1 * q = p * cand.2.1 then some (p, q, s || c.strict)
+        else some (p, q, s)
+    else rest
+
+/-- sup of `e·x + k` over `sem cs` (variables `< n`) -/
+def supB (n : Nat) (e : List Int) (k : Int) (cs : List Con) : Sup :=
+  let rows := projectTo 1 (n + 1) (supSystem e k cs)
+  if !feasible 1 rows then .empty
+  else match minUpper rows with
+    | none => .unbounded
+    | some (p, q, s) => .val p q (!s)
+
+/-- membership of a rational point (numerators / common positive denominator) -/
+def Con.holdsAt (c : Con) (num : List Int) (den : Int) : Bool :=
+  let v := (List.zipWith (· * ·) c.coeffs num).foldl (· + ·) 0 + c.k * den
+  if c.strict then decide (0 < v) else decide (0 ≤ v)
+
+end PPLV.Lin
